@@ -660,20 +660,85 @@ func ruleHeadWriter(c *Ctx, rule string) {
 		good := n == "call<builtin:len>("+bytesParam+")" && an.IsNilConst(r.Results[1])
 		c.R.Add(rule, c.fk(write), "write:returns(len(arg),nil)", c.pos(r), good, ifelse(good, "reports all bytes as written", "the wrapper's Write returns ("+n+", "+c.O.Of(r.Results[1]).String()+"): handlers see short writes or errors on HEAD"))
 	}
-	counted, lengthSet := false, false
-	an.AllInstrs(write, func(in ssa.Instruction) {
-		if base, field, val, ok := fieldStoreAny(in); ok && base == "recv" && field == "size" {
-			t := c.O.Of(val).String()
-			counted = (t == "binop<+>(recv.size, call<builtin:len>("+bytesParam+"))" || t == "binop<+>(call<builtin:len>("+bytesParam+"), recv.size)") && len(write.Blocks) == 1
+	// every path through Write adds len(arg) to the counter and then sets Content-Length to its decimal rendering
+	isCount := func(in ssa.Instruction) bool {
+		base, field, val, ok := fieldStoreAny(in)
+		if !ok || base != "recv" || field != "size" {
+			return false
 		}
-		if call, ok := calleeNamed(in, "net/http.Header.Set"); ok {
-			n, _ := strConst(call.Args[1])
-			v := c.O.Of(call.Args[2]).String()
-			lengthSet = n == "Content-Length" && strings.HasPrefix(v, "call<strconv.Itoa>(") && strings.Contains(v, "recv.size")
+		t := c.O.Of(val).String()
+		return t == "binop<+>(recv.size, call<builtin:len>("+bytesParam+"))" || t == "binop<+>(call<builtin:len>("+bytesParam+"), recv.size)"
+	}
+	isLength := func(in ssa.Instruction) bool {
+		call, ok := calleeNamed(in, "net/http.Header.Set")
+		if !ok {
+			return false
+		}
+		n, _ := strConst(call.Args[1])
+		v := c.O.Of(call.Args[2]).String()
+		return n == "Content-Length" && strings.HasPrefix(v, "call<strconv.Itoa>(") && strings.Contains(v, "recv.size")
+	}
+	isRet := func(t ssa.Instruction) bool { _, ok := t.(*ssa.Return); return ok }
+	otherSizeStore := false
+	an.AllInstrs(write, func(in ssa.Instruction) {
+		if base, field, _, ok := fieldStoreAny(in); ok && base == "recv" && field == "size" && !isCount(in) {
+			otherSizeStore = true
 		}
 	})
-	c.R.Add(rule, c.fk(write), "write:counts-every-write", c.P.Pos(write.Pos()), counted, ifelse(counted, "size += len(arg) on the single path", "the wrapper does not add len(arg) to its counter on every Write"))
-	c.R.Add(rule, c.fk(write), "write:Content-Length=Itoa(size)", c.P.Pos(write.Pos()), lengthSet, ifelse(lengthSet, "Content-Length is the decimal counter", "Content-Length is not set to the decimal rendering of the byte counter"))
+	pathC := (&an.Query{Target: isRet, Block: isCount}).Search(an.Entry(write))
+	counted := pathC == nil && !otherSizeStore
+	c.R.Add(rule, c.fk(write), "write:counts-every-write", c.P.Pos(write.Pos()), counted, ifelse(counted, "size += len(arg) on every path, and nothing else writes the counter", "the wrapper does not add len(arg) to its counter on every Write"))
+	lengthSet := true
+	an.AllInstrs(write, func(in ssa.Instruction) {
+		if isCount(in) && (&an.Query{Target: isRet, Block: isLength}).Search(an.After(in)) != nil {
+			lengthSet = false
+		}
+	})
+	if pathC != nil {
+		lengthSet = false
+	}
+	c.R.Add(rule, c.fk(write), "write:Content-Length=Itoa(size)", c.P.Pos(write.Pos()), lengthSet, ifelse(lengthSet, "after counting, every path sets Content-Length to the decimal counter", "Content-Length is not set to the decimal rendering of the byte counter"))
+	// the header net/http derives from the body on GET: a Content-Type the handler did not set is detected from the
+	// bytes of the first Write. The wrapper swallows the bytes, so it has to do the same or HEAD lacks that header.
+	sniffs, guarded := false, false
+	an.AllInstrs(write, func(in ssa.Instruction) {
+		call, ok := calleeNamed(in, "net/http.Header.Set")
+		if !ok {
+			return
+		}
+		if n, _ := strConst(call.Args[1]); n != "Content-Type" {
+			return
+		}
+		if c.O.Of(call.Args[2]).String() != "call<net/http.DetectContentType>("+bytesParam+")" {
+			return
+		}
+		sniffs = true
+		// only when the handler set none: behind "no Content-Type key / value in the header"
+		guarded = an.DominatedByEdge(in, func(b *ssa.BasicBlock, succ int) bool {
+			return edgeHas(b, succ, func(cond ssa.Value, truth bool) bool {
+				if ex, isEx := cond.(*ssa.Extract); isEx && ex.Index == 1 {
+					if lk, isLk := ex.Tuple.(*ssa.Lookup); isLk {
+						k, _ := strConst(lk.Index)
+						return k == "Content-Type" && !truth
+					}
+				}
+				x, k, eq, ok := an.CondAtom(cond)
+				if !ok {
+					return false
+				}
+				if s, isS := strConst(k); !isS || s != "" {
+					return false
+				}
+				call, isCall := x.(*ssa.Call)
+				if !isCall || an.CalleeName(&call.Call) != "net/http.Header.Get" {
+					return false
+				}
+				n, _ := strConst(call.Call.Args[1])
+				return n == "Content-Type" && eq == truth
+			})
+		})
+	})
+	c.R.Add(rule, c.fk(write), "write:detects-unset-Content-Type", c.P.Pos(write.Pos()), sniffs && guarded, ifelse(sniffs && guarded, "a Content-Type the handler did not set is detected from the written bytes, as net/http does for GET", ifelse(!sniffs, "the wrapper swallows the bytes from which net/http would detect a Content-Type the handler did not set: GET carries Content-Type, HEAD of the same handler does not", "the wrapper overwrites the handler's own Content-Type with a detected one")))
 	// no bypass methods
 	bypass := ""
 	for i := 0; i < wrapT.NumMethods(); i++ {
